@@ -145,6 +145,33 @@ pub fn make_nodes(c: &Combo, sib: SibMode, scheme: CodeScheme, filler: bool) -> 
         .collect()
 }
 
+/// Gives every node one more attribute (vendor name 0x2201) whose FORM rotates through every
+/// form that exists in the unit's version, with a boundary payload: entries of a forest are
+/// then separated by attributes of every encoded size (fixed, format-dependent,
+/// address-size-dependent, LEB128, block, string), so that reading, skipping and the
+/// advertised sizes all matter for where the next entry starts.
+pub fn add_form_rotation(nodes: &mut [NodeSpec], cfg: Cfg, salt: usize) {
+    let mut forms: Vec<u16> = vec![F_DATA1, F_DATA2, F_DATA4, F_DATA8, F_ADDR, F_STRP, F_REF_ADDR, F_UDATA, F_SDATA, F_FLAG, F_BLOCK1, F_BLOCK2, F_BLOCK4, F_BLOCK, F_STRING, F_REF1, F_REF2, F_REF4, F_REF8, F_REF_UDATA];
+    if cfg.version >= 4 {
+        forms.extend_from_slice(&[F_SEC_OFFSET, F_FLAG_PRESENT, F_EXPRLOC, F_REF_SIG8]);
+    }
+    if cfg.version >= 5 {
+        forms.extend_from_slice(&[F_LINE_STRP, F_STRX, F_STRX1, F_STRX2, F_STRX3, F_STRX4, F_ADDRX, F_ADDRX1, F_ADDRX2, F_ADDRX3, F_ADDRX4, F_DATA16, F_REF_SUP4, F_REF_SUP8, F_STRP_SUP, F_LOCLISTX, F_RNGLISTX, F_IMPLICIT_CONST]);
+    }
+    for (i, nd) in nodes.iter_mut().enumerate() {
+        let form = forms[(salt + i * 7) % forms.len()];
+        let fk = form_kind(form).expect("form table");
+        let ps = super::c03::payloads(fk, cfg, false);
+        // one of the first (short) payloads: units must stay small enough for DW_FORM_ref1 siblings
+        let p = ps[(salt / forms.len() + i) % ps.len().min(3)].clone();
+        let implicit = if fk == FK::ImplicitConst { -5 - i as i64 } else { 0 };
+        let p = if fk == FK::ImplicitConst { Payload::Nothing } else { p };
+        // in front of the sibling attribute for odd nodes, after everything for even ones
+        let at = if i % 2 == 1 { 0 } else { nd.attrs.len() };
+        nd.attrs.insert(at, AttrSpec { name: 0x2201, form, inner: 0, implicit, val: AVal::P(p) });
+    }
+}
+
 pub struct Built {
     pub big: bool,
     pub info: Vec<u8>,
@@ -743,7 +770,11 @@ pub fn check_dwarf_level(ctx: &mut Ctx, b: &Built) {
 // Subs
 
 fn traversal_case(ctx: &mut Ctx, combo: &Combo, pad: usize, sib: SibMode, scheme: CodeScheme, cfg: Cfg, kind: UKind, two: bool) {
-    let nodes = make_nodes(combo, sib, scheme, true);
+    let mut nodes = make_nodes(combo, sib, scheme, true);
+    // (a one-byte sibling reference cannot span the larger entries)
+    if !(sib.which != Which::None && (sib.form == F_REF1 || sib.inner == F_REF1)) {
+        add_form_rotation(&mut nodes, cfg, combo.parents.len() * 5 + pad + combo.leaf_mask as usize);
+    }
     let b = build(cfg, kind, &nodes, pad, two, 0, 0x0102_0304_0506_0708, combo.parents.len() - 1);
     if ctx.want_sample() {
         ctx.sample(format!("{} codes {:?} pad {} :: {}", sib.render(), scheme, pad, b.render()));
@@ -892,7 +923,10 @@ fn sub_headers(_tier: Tier) -> Sub {
         let (version, kind) = *mx.pick(&vk);
         let cfg = Cfg { version, fmt64, asz, big };
         let sib = SIB_MODES[(i % 3) as usize];
-        let nodes = make_nodes(&combo, sib, CODE_SCHEMES[(i % 6) as usize], true);
+        let mut nodes = make_nodes(&combo, sib, CODE_SCHEMES[(i % 6) as usize], true);
+        if !(sib.which != Which::None && (sib.form == F_REF1 || sib.inner == F_REF1)) {
+            add_form_rotation(&mut nodes, cfg, i as usize);
+        }
         let b = build(cfg, kind, &nodes, (i % 2) as usize, i % 4 < 2, prefix, id, usize::MAX - 1);
         if ctx.want_sample() {
             ctx.sample(b.render());
